@@ -99,7 +99,7 @@ pub mod h {
 %s
 }
 pub fn replay<Z9: crate::src::Src>(s: &mut Z9, out: &mut Vec<(String, String, String)>) {
-    use crate::src::{Src, Val, chk};
+    use crate::src::{Src, Val, chk}; use core::cmp::Ordering;
     %s
 }
 """ % (P.note or P.pid, pre, P.typedef(True), P.ty_inst(), mk, emit.indent(oracle), emit.indent(harness), replay)
@@ -246,6 +246,9 @@ pub fn replay<Z9: crate::src::Src>(s: &mut Z9, out: &mut Vec<(String, String, St
                         detail = "" if ok else _errs_for(err, name, pid, self._line_ranges(vdir, name))
                         if not ok and re.search(r"rlimit|Resource limit|timed? ?out", detail, re.I):
                             st = "undecided"
+                        if not ok and "/laws/" in oname:
+                            st = "undecided"
+                            detail = "lemma about the oracle only (independent of /repo) did not verify: " + detail
                     self._record(P, oname, st, "verus", detail, contract)
                     self.stats["verus"]["functions"] += 1
                     if st == "proved":
@@ -322,7 +325,9 @@ pub fn replay<Z9: crate::src::Src>(s: &mut Z9, out: &mut Vec<(String, String, St
                 st = "undecided"; detail = "vacuity guard: cover!(true) after the call was not satisfied"
             else:
                 st = "failed"; detail = r.get("detail", "")
-                if re.search(r"unwinding assertion|CBMC timed out|out of memory|unsupported|not currently supported", detail, re.I) and not re.search(r"ensures|assertion failed|dereference|pointer", detail.replace("unwinding assertion", ""), re.I):
+                if r.get("tool_failure"):
+                    st = "undecided"
+                elif re.search(r"unwinding assertion|CBMC timed out|out of memory|unsupported|not currently supported", detail, re.I) and not re.search(r"ensures|assertion failed|dereference|pointer", detail.replace("unwinding assertion", ""), re.I):
                     st = "undecided"
             self._record(P, oname, st, "kani", detail, contract)
             if b:
@@ -374,6 +379,10 @@ def parse_kani(text):
         fc = re.findall(r"(?m)^Failed Checks: (.*)$", b)
         loc = re.findall(r"(?m)^ File: (.*)$", b)
         r["detail"] = "; ".join(fc[:6]) + (" @ " + "; ".join(loc[:3]) if loc else "")
+        if failed and not fc:
+            # no failed check reported: CBMC crashed / ran out of memory / timed out -> not a verdict
+            r["tool_failure"] = True
+            r["detail"] = "kani/cbmc failed without reporting a failed check: " + _short(b, 400)
         res[name] = r
     return res
 
